@@ -301,6 +301,119 @@ def run_nuts(spec, imm, eps, q, p, seed, depth, bias=True, script=None, record=T
     return t, hk
 
 
+
+# --------------------------------------------------------------------------------------------------
+# momentum refresh on pytree positions
+# --------------------------------------------------------------------------------------------------
+
+MOMENTUM_REF = """
+normal = random_like(key=key, primals=mass_matrix_sqrt, rng=random.normal)
+return tree_util.tree_map(jnp.multiply, mass_matrix_sqrt, normal)
+"""
+RANDOM_LIKE_NEEDLES = ("subkeys = tree_unflatten(struct, random.split(key, struct.num_leaves))",
+                       "return tree_map(draw, subkeys, primals)")
+
+
+def momentum_anchor(repo):
+    """sample_momentum_from_diagonal / random_like must be the statements quoted in coq/C32/Model.v."""
+    import ast
+    tree = ast.parse(open(os.path.join(repo, "nifty/re/hmc.py")).read())
+    fs = [n for n in tree.body if isinstance(n, ast.FunctionDef) and n.name == "sample_momentum_from_diagonal"]
+    if len(fs) != 1:
+        return "sample_momentum_from_diagonal not found exactly once"
+    body = [x for x in fs[0].body if not (isinstance(x, ast.Expr) and isinstance(x.value, ast.Constant))]
+    if [ast.unparse(x) for x in body] != [ast.unparse(x) for x in ast.parse("def f():" + MOMENTUM_REF.replace(chr(10), chr(10) + "    ")).body[0].body]:
+        return "sample_momentum_from_diagonal is not the code modelled in coq/C32/Model.v (leaf_keys)"
+    t2 = ast.parse(open(os.path.join(repo, "nifty/re/tree_math/forest_math.py")).read())
+    fs = [n for n in t2.body if isinstance(n, ast.FunctionDef) and n.name == "random_like"]
+    if len(fs) != 1:
+        return "random_like not found exactly once"
+    txt = [ast.unparse(x) for x in fs[0].body]
+    for nd in RANDOM_LIKE_NEEDLES:
+        if nd not in txt:
+            return "random_like: statement `%s` not found (per-leaf key split)" % nd
+    return None
+
+
+def momentum_trees():
+    """mass_matrix_sqrt pytrees (as nested Python structures of shapes/values) with several leaves of
+    equal shape and dtype."""
+    return [
+        {"name": "dict2", "tree": {"a": [1.0, 1.0], "b": [1.0, 1.0]}},
+        {"name": "dict3", "tree": {"a": [0.5, 2.0, 1.0], "b": [0.5, 2.0, 1.0], "c": [1.0, 1.0, 1.0]}},
+        {"name": "nested", "tree": {"x": {"u": [1.0, 2.0], "v": [1.0, 2.0]}, "y": [1.0, 2.0], "z": 1.0}},
+        {"name": "tuple", "tree": ([[1.0, 1.0], [1.0, 1.0]], [[1.0, 1.0], [1.0, 1.0]], [2.0])},
+        {"name": "vector", "tree": {"a": [1.0, 0.5], "b": [1.0, 0.5]}, "vector": True},
+        {"name": "single", "tree": [1.0, 2.0, 0.5]},
+    ]
+
+
+def _to_jax_tree(t, vector=False):
+    import jax
+    import jax.numpy as jnp
+    import nifty.re as jft
+    conv = lambda x: jnp.asarray(x, dtype=jnp.float64)
+    tree = jax.tree_util.tree_map(conv, t, is_leaf=lambda x: isinstance(x, (int, float, list)))
+    return jft.Vector(tree) if vector else tree
+
+
+def observe_momentum(c):
+    """which sub-key (index into random.split(key, n_leaves); -1 = the key itself; -2 = none) reproduces each
+    leaf of the refreshed momentum bit for bit"""
+    import jax
+    import jax.numpy as jnp
+    from nifty.re import hmc
+    key = jax.random.PRNGKey(int(c["seed"]))
+    ms = _to_jax_tree(c["tree"], c.get("vector", False))
+    mom = hmc.sample_momentum_from_diagonal(key=key, mass_matrix_sqrt=ms)
+    lm, ls = jax.tree_util.tree_leaves(mom), jax.tree_util.tree_leaves(ms)
+    n = len(ls)
+    subkeys = jax.random.split(key, n)
+    idx = []
+    for j in range(n):
+        got = np.asarray(lm[j])
+        found = -2
+        for cand in list(range(n)) + [-1]:
+            kk = key if cand == -1 else subkeys[cand]
+            want = np.asarray(ls[j] * jax.random.normal(kk, jnp.shape(ls[j]), dtype=ls[j].dtype))
+            if got.shape == want.shape and np.array_equal(got, want):
+                found = cand
+                break
+        idx.append(found)
+    return {"n": n, "idx": idx, "mom": [np.asarray(x) for x in lm], "sqrt": [np.asarray(x) for x in ls]}
+
+
+def _direct_momentum(c):
+    o = observe_momentum(c)
+    # (1) no two leaves may receive bit-identical standard-normal draws
+    z = [m / sq for m, sq in zip(o["mom"], o["sqrt"])]
+    for i in range(o["n"]):
+        for j in range(i + 1, o["n"]):
+            if z[i].shape == z[j].shape and z[i].size > 0 and np.array_equal(z[i], z[j]):
+                return ("momentum-refresh-correlated", "leaves %d and %d of the refreshed momentum (pytree `%s`) carry bit-identical normal draws: the refresh is not N(0, M)" % (i, j, c["name"]))
+    # (2) end to end: flat potential, one leapfrog step, always accepted: the displacement of the chain is
+    #     step_size * M^-1 p, so equal-shaped leaves with equal mass must not move identically
+    if isinstance(c["tree"], dict):
+        import jax
+        import jax.numpy as jnp
+        import nifty.re as jft
+        pos0 = jft.Vector(jax.tree_util.tree_map(jnp.zeros_like, _to_jax_tree(c["tree"])))
+        V = lambda q: 0.0 * jft.vdot(q, q)
+        for mk in ("hmc", "nuts"):
+            if mk == "hmc":
+                smp = jft.HMCChain(potential_energy=V, inverse_mass_matrix=1.0, position_proto=pos0, num_steps=1, step_size=0.25)
+            else:
+                smp = jft.NUTSChain(potential_energy=V, inverse_mass_matrix=1.0, position_proto=pos0, step_size=0.25, max_tree_depth=1)
+            with Eager(False):
+                chain, _ = smp.generate_n_samples(int(c["seed"]), pos0, num_samples=3)
+            lv = [np.asarray(x) for x in jax.tree_util.tree_leaves(chain.samples)]
+            for i in range(len(lv)):
+                for j in range(i + 1, len(lv)):
+                    if lv[i].shape == lv[j].shape and lv[i].size > 0 and np.any(lv[i] != 0) and np.array_equal(lv[i], lv[j]):
+                        return ("momentum-refresh-correlated", "%s chain (unit mass) on a flat potential moves leaves %d and %d of `%s` identically in every sample: their momenta are perfectly correlated" % (
+                            mk.upper(), i, j, c["name"]))
+    return None
+
 # --------------------------------------------------------------------------------------------------
 # case generation
 # --------------------------------------------------------------------------------------------------
@@ -399,6 +512,9 @@ class C32(C.Check):
         except (SyntaxError, OSError) as e:
             raise C.TranslationError(repr(e))
         C.write_if_changed(os.path.join(C.COQ, "C32", "Gen_Leapfrog.v"), text)
+        msg = momentum_anchor(ctx.repo)
+        if msg:
+            raise C.TranslationError(msg)
 
     # ---- correspondence
     def observe(self, c):
@@ -507,6 +623,21 @@ class C32(C.Check):
                 nontrivial.add(("lf", c["spec"]["d"], c["n"], bool(any(c["spec"]["c"]))))
             else:
                 nontrivial.add(("nuts", int(o["tree"].depth), bool(o["tree"].turning), c["bias"]))
+        # momentum refresh on pytrees: which sub-key each leaf was drawn with, exact
+        self.momentum_cases = []
+        for t_i, t in enumerate(momentum_trees()):
+            for sd in ((11, 12) if ctx.quick else (11, 12, 13, 14, 15)):
+                c = dict(t, kind="momentum", seed=1000 * ctx.seed + 17 * t_i + sd)
+                try:
+                    o = observe_momentum(c)
+                except Exception as e:
+                    res.add_broken("correspondence", "implementation raised", {"case": _js(c), "error": repr(e)[:300]})
+                    continue
+                self.momentum_cases.append(c)
+                checks.append("momentum_case %d %s" % (o["n"], C.clist([C.cz(i) for i in o["idx"]])))
+                meta.append(("momentum", c))
+                dist["momentum"] = dist.get("momentum", 0) + 1
+                nontrivial.add(("momentum", t["name"], o["n"]))
         # bit functions, exact
         rng = ctx.rng(3204)
         from nifty.re import hmc
@@ -563,8 +694,14 @@ class C32(C.Check):
         for c in hmc_cases(ctx)[: (30 if ctx.quick else 150) * budget]:
             todo.append(c)
         for c in ctx.corpus():
-            if c.get("kind") in ("chain", "nutsinv", "hmc", "lf"):
+            if c.get("kind") in ("chain", "nutsinv", "hmc", "lf", "momentum"):
                 todo.append(c)
+        for c in getattr(self, "bad_cases", []):
+            if c.get("kind") == "momentum" and c not in todo:
+                todo.insert(0, c)
+                n_hints += 1
+        for t_i, t in enumerate(momentum_trees()):
+            todo.append(dict(t, kind="momentum", seed=1000 * ctx.seed + 17 * t_i + 5))
         todo.append({"kind": "chain", "shape": 3.0, "eps": 0.9, "n": 2, "nsamp": 150, "seed": 7 + ctx.seed, "q0": 1.0})
         spec, imm, eps, q, p = gen_common(ctx.rng(3211), d=1)
         todo.append({"kind": "nutsinv", "spec": spec, "imm": imm, "eps": 0.5, "q": q, "p": p, "depth": 1, "bias": True})
@@ -619,7 +756,7 @@ class C32(C.Check):
 
 def _fn_of(c):
     return {"lf": "leapfrog_step", "hmc": "generate_hmc_acc_rej", "chain": "HMCChain.generate_n_samples",
-            "nutsinv": "generate_nuts_tree", "moments": "generate_n_samples"}.get(c["kind"], c["kind"])
+            "nutsinv": "generate_nuts_tree", "moments": "generate_n_samples", "momentum": "sample_momentum_from_diagonal"}.get(c["kind"], c["kind"])
 
 
 def _js(c):
@@ -643,6 +780,8 @@ def direct_failure(c):
         return _direct_nuts_invariance(c)
     if k == "moments":
         return _direct_moments(c)
+    if k == "momentum":
+        return _direct_momentum(c)
     raise ValueError(k)
 
 
